@@ -290,6 +290,7 @@ func (s *PersistentHybridIndex) Remove(id uint32) error {
 	memtables := s.memtableQueue.list()
 	if len(memtables) > 0 {
 		mutable := memtables[len(memtables)-1]
+		verifPoint("store.remove.picked", mutable)
 		return mutable.remove(id)
 	}
 
